@@ -55,3 +55,12 @@ From Signalo Require Base.Arith Model.Generic Proofs.Generic.
 Theorem C08_generic_schmitt : forall (U : Type) lo hi (outs : U * U) on x, Signalo.Model.Generic.g_schmitt_step Signalo.Base.Arith.Qar lo hi outs on x = Signalo.Model.Classify.schmitt_step Signalo.Base.QR.qleb lo hi outs on x.
 Proof. exact @Signalo.Proofs.Generic.gq_schmitt. Qed.
 Print Assumptions C08_generic_schmitt.
+
+(* No false alarm: the boolean reading of this property that the correspondence check evaluates on the IMPLEMENTATION's
+   outputs (Check/C08.v, verdict bit 2) can never fail on outputs that agree with the model (bit 1 clear); side conditions,
+   where there are any, are boolean and say which recorded observations the model comparison does not cover. *)
+From Coq Require Import NArith.
+From Signalo Require Base.Report Check.C08 Proofs.Sound_C08.
+Theorem C08_checker_no_false_alarm : forall c : Signalo.Check.C08.case, Signalo.Proofs.Sound_C08.wf c = true -> N.land (Signalo.Base.Report.code (Signalo.Check.C08.check c)) 3 <> 2%N.
+Proof. exact Signalo.Proofs.Sound_C08.C08_check_sound. Qed.
+Print Assumptions C08_checker_no_false_alarm.
